@@ -723,7 +723,7 @@ impl<'a, 'b, 'ast> Visit<'ast> for Collector<'a, 'b> {
                 let sp = e.span().byte_range();
                 self.edits.push((sp.start, sp.end, format!("{}neg_({x})", rw.fam(&[&u.expr]))));
             }
-            Expr::MethodCall(c) if c.method == "collect" && c.args.is_empty() => {
+            Expr::MethodCall(c) if c.method == "collect" && c.args.is_empty() && !(rw.for_iter && matches!(&*c.receiver, Expr::MethodCall(m) if m.method == "filter_map")) => {
                 // R8: (a..b).collect()
                 let mut inner = &*c.receiver;
                 while let Expr::Paren(p) = inner {
@@ -826,6 +826,14 @@ impl<'a, 'b, 'ast> Visit<'ast> for Collector<'a, 'b> {
                     self.edits.push((sp.start, sp.end, text));
                 }
             }
+            Expr::MethodCall(c) if !rw.iter_model.is_empty() && (c.method == "iter" || c.method == "into_iter") && c.args.is_empty() && { let mut v = vec![]; Rw::leaf_names(&c.receiver, &mut v); v.last().map(|n| rw.iter_model.contains(&format!("{n}!"))).unwrap_or(false) } => {
+                // R22 (owned form, `iter_model=name!`): `f().iter()` / `f().into_iter()` on a Vec returned by value -> `viter_own_(f())`
+                //   (the model iterator owns the vector, as the temporary does in the original expression)
+                let text = format!("viter_own_({})", rw.render_expr(&c.receiver));
+                rw.count("R22");
+                let sp = e.span().byte_range();
+                self.edits.push((sp.start, sp.end, text));
+            }
             Expr::MethodCall(c) if !rw.iter_model.is_empty() && c.method == "iter" && c.args.is_empty() && { let mut v = vec![]; Rw::leaf_names(&c.receiver, &mut v); v.last().map(|n| rw.iter_model.contains(n)).unwrap_or(false) } => {
                 // R22 (option iter_model=<names>): `X.iter()` on a Vec / array whose last path segment is listed -> `viter_(&X)`,
                 //   the overlay's iterator model of slice iteration (ghost element sequence + position; `enumerate` is a method of the model)
@@ -835,6 +843,39 @@ impl<'a, 'b, 'ast> Visit<'ast> for Collector<'a, 'b> {
                 rw.count("R22");
                 let sp = e.span().byte_range();
                 self.edits.push((sp.start, sp.end, text));
+            }
+            Expr::MethodCall(c) if rw.for_iter && c.method == "then" && c.args.len() == 1 && matches!(&c.args[0], Expr::Closure(cl) if cl.inputs.is_empty()) => {
+                // R26 (option for_iter=1): `b.then(|| E)` -> `if b { Some(E) } else { None }`  (bool::then, by definition)
+                if let Expr::Closure(cl) = &c.args[0] {
+                    let text = format!("(if {} {{ Some({}) }} else {{ None }})", rw.render_expr(&c.receiver), rw.render_expr(&cl.body));
+                    rw.count("R26");
+                    let sp = e.span().byte_range();
+                    self.edits.push((sp.start, sp.end, text));
+                }
+            }
+            Expr::MethodCall(c) if rw.for_iter && c.method == "collect" && c.args.is_empty() && matches!(&*c.receiver, Expr::MethodCall(m) if m.method == "filter_map" && m.args.len() == 1 && matches!(&m.args[0], Expr::Closure(cl) if cl.inputs.len() == 1)) => {
+                // R25 (option for_iter=1): `E.filter_map(|P| B).collect()` into a Vec -> the loop
+                //   `{ let mut it = E.into_iter(); let mut out = Vec::new(); loop { match it.next() { Some(P) => { match B { Some(v) => out.push(v), None => {} } } None => break } } out }`
+                if let Expr::MethodCall(m) = &*c.receiver { if let Expr::Closure(cl) = &m.args[0] {
+                    let idx = rw.loop_idx.get();
+                    rw.loop_idx.set(idx + 1);
+                    let a = e.span().byte_range().start;
+                    let b = cl.body.span().byte_range().start;
+                    rw.loop_headers.borrow_mut().push(rw.src[a..b].split_whitespace().collect::<Vec<_>>().join(" "));
+                    let it = rw.render_expr(&m.receiver);
+                    let (pat, binds) = deref_pats(&rw.src[cl.inputs[0].span().byte_range()]);
+                    let body = rw.render_expr(&cl.body);
+                    let inv = rw.section(&format!("loop {idx}")).map(|t| mark(t)).unwrap_or_default();
+                    let before = rw.section(&format!("loop {idx} before")).map(|t| format!("proof {{ //@p\n{}\n}} //@p\n", mark(t))).unwrap_or_default();
+                    let end = rw.section(&format!("loop {idx} end")).map(|t| format!("proof {{ //@p\n{}\n}} //@p\n", mark(t))).unwrap_or_default();
+                    let after = rw.section(&format!("loop {idx} after")).map(|t| format!("proof {{ //@p\n{}\n}} //@p\n", mark(t))).unwrap_or_default();
+                    // optional "loop N elem": the element type of the collected Vec (rustc infers it from the use; Verus's spec terms need it early)
+                    let elem = rw.section(&format!("loop {idx} elem")).map(|t| format!("::<{}>", t.trim())).unwrap_or_default();
+                    let text = format!("({{ let mut __it{idx} = ({it}).into_iter(); let mut __out{idx} = Vec{elem}::new();\n{before}loop\n{inv}\n{{ match __it{idx}.next() {{ Some({pat}) => {{ {binds}match {body} {{ Some(__v) => {{ __out{idx}.push(__v); }} None => {{}} }}\n{end} }} None => {{ break; }} }} }}\n{after} __out{idx} }})");
+                    rw.count("R25");
+                    let sp = e.span().byte_range();
+                    self.edits.push((sp.start, sp.end, text));
+                } }
             }
             Expr::MethodCall(c) if rw.for_iter && c.method == "count" && c.args.is_empty() && matches!(&*c.receiver, Expr::MethodCall(m) if m.method == "filter" && m.args.len() == 1 && matches!(&m.args[0], Expr::Closure(cl) if cl.inputs.len() == 1)) => {
                 // R21 (option for_iter=1): `E.filter(|P| B).count()` -> the counting loop
